@@ -261,3 +261,69 @@ func bigFromDec(s string) *big.Int {
 	}
 	return b
 }
+
+type obsTerm struct {
+	Tag  string
+	Term string
+}
+
+// observe records an output of the real code so that the encoding's value can be compared with the native run.
+func (it *Interp) observe(tag string, v Value) {
+	switch x := v.(type) {
+	case *big.Int:
+		it.observed = append(it.observed, obsTerm{tag, lit(x)})
+	case bool:
+		it.observed = append(it.observed, obsTerm{tag, T(x)})
+	case *Sym:
+		name := it.freshName("obs")
+		srt := "Int"
+		if x.S == SBool {
+			srt = "Bool"
+		}
+		it.emit("(define-fun " + name + " () " + srt + " " + x.T + ")")
+		it.observed = append(it.observed, obsTerm{tag, name})
+	case IntV:
+		it.observe(tag, x.V)
+	case DecV:
+		it.observe(tag, x.V)
+	case TimeV:
+		it.observe(tag, x.NS)
+	case *CoinsV:
+		for _, d := range sortedKeys(x.Amt) {
+			it.observe(tag+"."+d, x.Amt[d])
+		}
+	case *SliceV:
+		c := it.toCoins(x)
+		it.observe(tag, c)
+	case *Ptr:
+		it.observe(tag, it.bigVal(x))
+	default:
+		panic(unsupported(fmt.Sprintf("observe %T", v)))
+	}
+}
+
+// sampleTrace: at the end of a completed path, ask for one model and evaluate the observed outputs under it.
+func (it *Interp) sampleTrace() {
+	if len(it.observed) == 0 || !it.R.wantTrace() {
+		return
+	}
+	it.flush()
+	r := it.solver.CheckSat()
+	it.R.countQuery(r)
+	if r != "sat" {
+		return
+	}
+	m := it.model()
+	obs := map[string]string{}
+	for _, o := range it.observed {
+		vals := it.solver.GetValues([]string{o.Term})
+		for _, v := range vals {
+			obs[o.Tag] = v
+		}
+		if len(vals) == 0 {
+			// constant term
+			obs[o.Tag] = strings.Trim(strings.ReplaceAll(strings.ReplaceAll(o.Term, "(- ", "-"), ")", ""), " ")
+		}
+	}
+	it.R.addTrace(&TraceSample{Model: m, Obs: obs})
+}
